@@ -254,8 +254,9 @@ class VizierServicer(vizier_service_pb2_grpc.VizierServiceServicer):
     """Adds one or more Trials to a Study, with parameter values suggested by a Pythia policy.
 
     The logic is as follows:
-    1. If there is already an active (not done) operation, simply return that.
-    2. Else, create a new active operation.
+    1. If there is a not-done operation of this client, it was abandoned (all
+    computations for a study are serialized); close it with an error.
+    2. Create a new active operation.
     3. We need the requested number of ACTIVE trials to return. These will come
     from 3 sources:
       A. ACTIVE trials already assigned to the client.
@@ -309,8 +310,19 @@ class VizierServicer(vizier_service_pb2_grpc.VizierServiceServicer):
         )
       except custom_errors.NotFoundError:
         active_op_list = []
-      if active_op_list:
-        return active_op_list[0]  # We've found the active one!
+      # All suggestion computations of a study are serialized by the operation
+      # lock held here, so an operation that is still not done was abandoned
+      # (e.g. the server died in the middle of it) and nobody will finish it.
+      # Close it with an error instead of answering this client with it forever.
+      for abandoned_op in active_op_list:
+        abandoned_op.error.CopyFrom(
+            status_pb2.Status(
+                code=code_pb2.Code.ABORTED,
+                message='Operation was abandoned before completion.',
+            )
+        )
+        abandoned_op.done = True
+        self.datastore.update_suggestion_operation(abandoned_op)
 
       start_time = _get_current_time()
       # Create a new Op if there aren't any active (not done) ops.
